@@ -108,7 +108,10 @@ func (r *reader) result() string {
 
 type wireDriver struct {
 	w      *world.World
-	subs   map[string][]*reader
+	subs   map[string][]*reader                // live Subscription handles per topic, oldest first
+	dead   map[string][]*reader                // already cancelled handles per topic (Cancel can be called again)
+	relays map[string][]pubsub.RelayCancelFunc // not yet called RelayCancelFuncs per topic
+	rdead  map[string][]pubsub.RelayCancelFunc // already called ones (can be called again)
 	topics []string
 	quiet  bool
 	bsub   *pubsub.Subscription
@@ -247,12 +250,18 @@ func (d *wireDriver) do(t *testing.T, a M) {
 		hnet.Settle(15 * time.Millisecond)
 		w.Emit(a)
 	case "cancel":
+		// cancels the newest live handle of the topic, or the oldest one ("old")
 		w.Guard()
 		tp := gets(a, "t")
 		res := "none"
 		if l := d.subs[tp]; len(l) > 0 {
-			r := l[len(l)-1]
-			d.subs[tp] = l[:len(l)-1]
+			k := len(l) - 1
+			if getb(a, "old") {
+				k = 0
+			}
+			r := l[k]
+			d.subs[tp] = append(append([]*reader{}, l[:k]...), l[k+1:]...)
+			d.dead[tp] = append(d.dead[tp], r)
 			r.sub.Cancel()
 			hnet.Settle(15 * time.Millisecond)
 			res = r.result()
@@ -260,6 +269,41 @@ func (d *wireDriver) do(t *testing.T, a M) {
 			hnet.Settle(15 * time.Millisecond)
 		}
 		d.extra = M{"rdone": res}
+		w.Emit(a)
+	case "cancelAgain":
+		// Subscription.Cancel a SECOND time on the most recently cancelled handle of the topic
+		w.Guard()
+		tp := gets(a, "t")
+		if l := d.dead[tp]; len(l) > 0 {
+			l[len(l)-1].sub.Cancel()
+		}
+		hnet.Settle(15 * time.Millisecond)
+		// how the still live readers of the topic are doing ("blocked" = being served)
+		live := []any{}
+		for _, r := range d.subs[tp] {
+			live = append(live, r.result())
+		}
+		d.extra = M{"live": live}
+		w.Emit(a)
+	case "unrelay":
+		w.Guard()
+		tp := gets(a, "t")
+		if l := d.relays[tp]; len(l) > 0 {
+			c := l[len(l)-1]
+			d.relays[tp] = l[:len(l)-1]
+			d.rdead[tp] = append(d.rdead[tp], c)
+			c()
+		}
+		hnet.Settle(15 * time.Millisecond)
+		w.Emit(a)
+	case "unrelayAgain":
+		// the RelayCancelFunc that was called last is called a second time
+		w.Guard()
+		tp := gets(a, "t")
+		if l := d.rdead[tp]; len(l) > 0 {
+			l[len(l)-1]()
+		}
+		hnet.Settle(15 * time.Millisecond)
 		w.Emit(a)
 	case "relay":
 		tp := gets(a, "t")
@@ -278,9 +322,14 @@ func (d *wireDriver) do(t *testing.T, a M) {
 			w.Emit(a)
 			return
 		}
-		if !w.Do(a) {
-			t.Fatalf("unknown action %v", a)
+		w.Guard()
+		c, err := w.Topic(tp).Relay()
+		if err != nil {
+			t.Fatalf("relay: %v", err)
 		}
+		d.relays[tp] = append(d.relays[tp], c)
+		hnet.Settle(15 * time.Millisecond)
+		w.Emit(a)
 	case "bsub":
 		// a subscription with a small buffer and no reader
 		w.Guard()
@@ -343,7 +392,8 @@ func (d *wireDriver) do(t *testing.T, a M) {
 func runWire(t *testing.T, out *vh.Out, idx int, s scenario) {
 	synctest.Test(t, func(t *testing.T) {
 		cfg := world.Config{Router: gets(s.Cfg, "router"), QueueSize: geti(s.Cfg, "queue", 0), Hosts: geti(s.Cfg, "hosts", 4)}
-		d := &wireDriver{held: map[string]peer.ID{}, subs: map[string][]*reader{}}
+		d := &wireDriver{held: map[string]peer.ID{}, subs: map[string][]*reader{}, dead: map[string][]*reader{},
+			relays: map[string][]pubsub.RelayCancelFunc{}, rdead: map[string][]pubsub.RelayCancelFunc{}}
 		for _, x := range s.Cfg["topics"].([]any) {
 			d.topics = append(d.topics, x.(string))
 		}
@@ -398,6 +448,7 @@ type node struct {
 	ps     *pubsub.PubSub
 	topics map[string]*pubsub.Topic
 	subs   map[string][]*pubsub.Subscription
+	dead   map[string][]*pubsub.Subscription
 	relays map[string][]pubsub.RelayCancelFunc
 }
 
@@ -456,7 +507,7 @@ func runNet(t *testing.T, out *vh.Out, idx int, s netScenario) {
 			if err != nil {
 				t.Fatal(err)
 			}
-			nodes[name] = &node{name: name, h: h, ps: ps, topics: map[string]*pubsub.Topic{}, subs: map[string][]*pubsub.Subscription{}, relays: map[string][]pubsub.RelayCancelFunc{}}
+			nodes[name] = &node{name: name, h: h, ps: ps, topics: map[string]*pubsub.Topic{}, subs: map[string][]*pubsub.Subscription{}, dead: map[string][]*pubsub.Subscription{}, relays: map[string][]pubsub.RelayCancelFunc{}}
 			order = append(order, name)
 		}
 		step := 0
@@ -545,7 +596,12 @@ func runNet(t *testing.T, out *vh.Out, idx int, s netScenario) {
 			case "cancel":
 				if l := n.subs[tp]; len(l) > 0 {
 					l[len(l)-1].Cancel()
+					n.dead[tp] = append(n.dead[tp], l[len(l)-1])
 					n.subs[tp] = l[:len(l)-1]
+				}
+			case "cancelAgain": // Cancel a second time on the handle cancelled last
+				if l := n.dead[tp]; len(l) > 0 {
+					l[len(l)-1].Cancel()
 				}
 			case "relay":
 				c, err := n.topic(t, tp).Relay()
